@@ -327,7 +327,7 @@ class System:
     exprs/default (units), k (water/extensive factor), perm (rng for orders), renum (offset map), dup (bool), spread (bool),
     mixmode"""
 
-    def __init__(self, rng, db, kind):
+    def __init__(self, rng, db, kind, fam=None):
         self.db = db
         self.kind = kind
         self.temp = rng.choice([25.0, 25.0, 25.0, 10.0, 40.0, 60.0])
@@ -383,6 +383,9 @@ class System:
             p["time"] = rng.choice([3600.0, 86400.0, 1000.0])
             p["steps"] = rng.choice([1, 2, 3])
             p["formula"] = rng.choice(["CaCl2", "NaCl", "KBr"])
+            # the integrator's error control is absolute (moles): under a water-mass factor only a rate law that Runge-Kutta
+            # integrates exactly (zero order, per kg water) is an exact restatement; first order (∝ M) elsewhere
+            p["order"] = 0 if fam == "water" else rng.choice([0, 1])
         self.p = p
 
     # ---- rendering
@@ -498,10 +501,10 @@ class System:
             use.append(f"USE gas_phase {nother}")
             for g, _ in p["gases"]:
                 extra_obs.append(("e", f"gas_{g}", f'GAS("{g}")'))
-                extra_obs.append(("i", f"pr_{g}", f'PR_P("{g}")'))
-            extra_obs.append(("e", "gasvol", "GAS_VM * 0 + SYS(\"gas\")"))
+            extra_obs.append(("e", "gas_total", 'SYS("gas")'))
         elif kind == "kinetics":
-            rate = (f"RATES\n Dissolve\n -start\n 10 rate = PARM(1) * M * (1 + TOT(\"water\") * 0)\n 20 moles = rate * TIME\n"
+            law = "PARM(1) * M" if p["order"] == 1 else "PARM(1) * 100 * TOT(\"water\")"
+            rate = (f"RATES\n Dissolve\n -start\n 10 rate = {law}\n 20 moles = rate * TIME\n"
                     " 30 SAVE moles\n -end\n")
             blocks.insert(0, rate)
             kb = (f"KINETICS {nother}\n Dissolve\n -formula {p['formula']} 1.0\n -m0 {fmt(p['m0'] * k)}\n -parms {p['k']!r}\n"
@@ -533,11 +536,15 @@ class System:
         if kind == "exchange" or (kind == "batch" and p.get("reaction")):
             elems_obs += [e for e in ("Na", "Cl") if e not in elems_obs]
         obs = observables(elems_obs, extra_obs)
-        text = "".join(body) + punch_block(obs)
-        if kind == "speciation":
-            text += "END\n"
+        if kind == "mix":
+            mixb = [b for b in body if b.startswith("MIX")]
+            copies = [b.replace("END\n", "") for b in body if b.startswith("COPY")]
+            sols = [b for b in body if not b.startswith(("MIX", "COPY"))]
+            text = punch_block(obs) + "".join(sols) + "".join(copies) + "END\n" + "".join(mixb) + "END\n"
+        elif kind == "speciation":
+            text = punch_block(obs) + "".join(body) + "END\n"
         else:
-            text += "END\n" + "\n".join(use) + "\nEND\n"
+            text = punch_block(obs) + "".join(body) + "END\n" + "\n".join(use) + "\nEND\n"
         return text, obs
 
     def spread_block(self, n, water, order):
